@@ -436,8 +436,8 @@ def runCload (r : Report) (s : Section) (l : Line) (fs : Fields) (j : J) : Repor
   else
     r := checkTok r s l "CJ" ("det:" ++ eitherF32 (fun o => printRes (loadJsonDet o fs j)) oc ((obs? l.obs "CJ").map fun x => (x.drop 4).toString))
     r := checkTok r s l "CY" ("det:" ++ eitherF32 (fun o => printRes (loadYamlDet o fs (embY j))) oc ((obs? l.obs "CY").map fun x => (x.drop 4).toString))
-    let mT := tomlFront j (fun t => printRes (loadTomlDet oc fs t))
-    r := checkTok r s l "CT" (if mT = "skip" then mT else "det:" ++ mT)
+    let mT := eitherF32 (fun o => let x := tomlFront j (fun t => printRes (loadTomlDet o fs t)); if x = "skip" then x else "det:" ++ x) oc (obs? l.obs "CT")
+    r := checkTok r s l "CT" mT
     r := r.addCover ("cload-" ++ classOf ((g "CJ").drop 4).toString)
     if inScope j ∧ (g "CJ" ≠ g "CY" ∨ (g "CT" ≠ "skip" ∧ g "CJ" ≠ g "CT")) then
       r := r.violation s.idx l.idx s!"format-dependent class=format-collision CJ=[{g "CJ"}] CY=[{g "CY"}] CT=[{g "CT"}] doc=[{printTree j}]"
